@@ -137,7 +137,7 @@ impl Property for C12 {
     }
     fn cases(&self, tier: Tier) -> usize {
         match tier {
-            Tier::Quick => 8_000,
+            Tier::Quick => 30_000,
             Tier::Thorough => 400_000,
         }
     }
